@@ -37,6 +37,13 @@ int verif_thrown;
 #define VERIF_ANY_3(P, ...) (P(0, __VA_ARGS__) || P(1, __VA_ARGS__) || P(2, __VA_ARGS__))
 #define VERIF_ANY_4(P, ...) (P(0, __VA_ARGS__) || P(1, __VA_ARGS__) || P(2, __VA_ARGS__) || P(3, __VA_ARGS__))
 #define VERIF_ANY_5(P, ...) (P(0, __VA_ARGS__) || P(1, __VA_ARGS__) || P(2, __VA_ARGS__) || P(3, __VA_ARGS__) || P(4, __VA_ARGS__))
+/* a second, identical family so that a "for all rows" can contain a "for all columns" (cpp does not re-expand a macro inside itself) */
+#define VERIF_ALLB_1(P, ...) (P(0, __VA_ARGS__))
+#define VERIF_ALLB_2(P, ...) (P(0, __VA_ARGS__) && P(1, __VA_ARGS__))
+#define VERIF_ALLB_3(P, ...) (P(0, __VA_ARGS__) && P(1, __VA_ARGS__) && P(2, __VA_ARGS__))
+#define VERIF_ALLB_4(P, ...) (P(0, __VA_ARGS__) && P(1, __VA_ARGS__) && P(2, __VA_ARGS__) && P(3, __VA_ARGS__))
+#define VERIF_ALLB_5(P, ...) (P(0, __VA_ARGS__) && P(1, __VA_ARGS__) && P(2, __VA_ARGS__) && P(3, __VA_ARGS__) && P(4, __VA_ARGS__))
+#define VERIF_ALLB(n, P, ...) VERIF_CAT(VERIF_ALLB_, n)(P, __VA_ARGS__)
 #define VERIF_CAT_(a, b) a##b
 #define VERIF_CAT(a, b) VERIF_CAT_(a, b)
 #define VERIF_ALL(n, P, ...) VERIF_CAT(VERIF_ALL_, n)(P, __VA_ARGS__)
